@@ -49,11 +49,26 @@ def case_strategy(draw):
 
 
 def run_case(case):
+    """the three consumers are checked with the configured closed side and then, on the same
+    cache directory, with the other one (the rule must not stick to what was cached first)"""
+    first = _run_one(case, flipped=False)
+    if any(r.status == "fail" for r in first) or first[0].status == "discard":
+        return first
+    second = _run_one(case, flipped=True, after_first=True)
+    fails = [r for r in second if r.status == "fail"]
+    for r in fails:
+        r.sig = "second-closed-side:" + r.sig
+    return [first[0]] + fails
+
+
+def _run_one(case, flipped, after_first=False):
     import yaw
     from yaw.catalog.trees import BinnedTrees
     from yaw.redshifts import HistData
 
-    b = case["binning"]
+    b = dict(case["binning"])
+    if flipped:
+        b["closed"] = "left" if b["closed"] == "right" else "right"
     cfgd = dict(b, rmin=[0.001], rmax=[0.01], unit="rad", cosmology=case["cosmology"], rweight=None, resolution=None)
     K = case["npatch"]
     cat = case["cat"]
@@ -78,6 +93,11 @@ def run_case(case):
                         z[z == src] = dst
                 cat = dict(cat, z=z.tolist())
             catalog = pl.make_catalog(tmp / "c", cat, patch_ids=pid)
+            if after_first:
+                # history: the same cache was used with the other closed side just before
+                other = "left" if closed == "right" else "right"
+                catalog.build_trees(edges, closed=other, max_workers=1)
+                yaw.autocorrelate(pl.make_config(dict(cfgd, closed=other)), catalog, catalog, count_rr=False, max_workers=1)
         except Exception as e:  # noqa
             ck.fail(f"setup|{exc_sig(e)}", f"{type(e).__name__}: {e}")
             return ck.results()
@@ -144,4 +164,4 @@ def run_case(case):
 
 
 def components():
-    return [Component("membership", case_strategy(), run_case, quick=1500, thorough=60_000)]
+    return [Component("membership", case_strategy(), run_case, quick=1000, thorough=40_000)]
